@@ -217,6 +217,38 @@ pub fn gen_c16(run: &mut crate::Run, seed: u64, thorough: bool) {
                 g.run.op("app.count", "q");
                 g.q_msg(&approved);
             }
+            // directed (once per history): after a successful delivery of M1 —
+            //  (a) a later batch [fresh M2, M1] (the executed message NOT in front) must not revive M1;
+            //  (b) an outsider's own (failing) consumption attempt at the gateway, followed by a re-submission of the old
+            //      approval, must not revive it either
+            if step == 3 {
+                let app1 = mini.clone();
+                let pl = b"directed-payload".to_vec();
+                let m1 = Msg { chain: b"chain0".to_vec(), id: format!("directed-{h}").into_bytes(), src: src.clone(), contract: app1.clone(), ph: keccak(&pl) };
+                let pf = g.honest(&ws, &approve_data_hash(&g.env, &[m1.clone()]));
+                g.approve(&[m1.clone()], &pf, "directed-approve");
+                let exec = format!("app.execute {} {} {} {} {}", app1.tok(), hx(&m1.chain), hx(&m1.id), hx(&m1.src), hx(&pl));
+                g.run.op(&exec, "directed-first-delivery");
+                g.run.op("app.count", "q");
+                let m2 = Msg { chain: b"chain0".to_vec(), id: format!("directed-{h}-fresh").into_bytes(), src: src.clone(), contract: app1.clone(), ph: keccak(b"x") };
+                let batch = vec![m2.clone(), m1.clone()];
+                let pf = g.honest(&ws, &approve_data_hash(&g.env, &batch));
+                g.approve(&batch, &pf, "directed-batch-fresh-then-executed");
+                g.q_msg(&m1);
+                g.run.op(&exec, "directed-delivery-after-batch");
+                g.run.op("app.count", "q");
+                let outsider = other_app.clone();
+                g.run.op(
+                    &format!("gw.validate_message {} {} {} {} {} {}", outsider.tok(), hx(&m1.chain), hx(&m1.id), hx(&m1.src), hex::encode(m1.ph), AuthSpec::exact(&[outsider.clone()]).tok()),
+                    "directed-outsider-consumption-attempt",
+                );
+                g.q_msg(&m1);
+                let pf = g.honest(&ws, &approve_data_hash(&g.env, &[m1.clone()]));
+                g.approve(&[m1.clone()], &pf, "directed-re-approve-after-outsider");
+                g.q_msg(&m1);
+                g.run.op(&exec, "directed-delivery-after-outsider");
+                g.run.op("app.count", "q");
+            }
             // the conforming delivery after a deviating one (the approval must still be intact if it was not consumed)
             if dev >= 5 && dev <= 7 {
                 g.run.op(
